@@ -37,6 +37,7 @@ impl<T> core::ops::Deref for Node<T> {
 pub enum Value { Null, Other(u64) }
 
 pub mod ast {
+    pub use super::{Type, Value, Name, NamedType, Node};
     pub struct VariableDefinition { pub ty: super::Node<super::Type>, pub default_value: Option<super::Node<super::Value>> }
     pub struct InputValueDefinition { pub ty: super::Node<super::Type>, pub default_value: Option<super::Node<super::Value>> }
 }
